@@ -461,13 +461,6 @@ PUML_TABLE: dict[str, list[tuple]] = {
          ("PUMLGraph._order_nodes_from_dfs_successors_dict(each(enumerate("
           "reversed(P:dfs_successor_dict[P:node])))[1],P:dfs_successor_dict)",
           ), [("cmp", "P:node", "In", "P:dfs_successor_dict", "1")], [], ""),
-        ("in front of each branch of an operator that has branch separators "
-         "comes the separator for that position (none where the table says "
-         "none)", "call", "append", "[P:node]", (_SEPN,),
-         [("cmp", "P:node", "In", "P:dfs_successor_dict", "1"),
-          ("truth", "isinstance(P:node,PUMLOperatorNode)", "1"),
-          ("cmp", "P:node.operator_type", "In", "OPERATOR_PATH_FUNCTION_MAP",
-           "1"), ("cmp", _SEPN, "Is", "None", "0")], [], ""),
     ],
     "PUMLGraph.write_uml_blocks": [
         ("the lines of every node of the linearisation are appended, in "
